@@ -74,6 +74,35 @@ structure FileOrder {F : Type} (fle : F → F → Bool) : Prop where
 def KeyInjective {F : Type} (hs : List (Hunk F)) : Prop :=
   ∀ a ∈ hs, ∀ b ∈ hs, a.file = b.file → a.line = b.line → a.byteOffset = b.byteOffset → a = b
 
+-- the rename list (`plan.paths`) ---------------------------------------------------------------------
+
+/-- a planned rename as far as ordering goes: `path` stands for the PathBuf (any injective numbering that respects
+    `PathBuf::cmp`) -/
+structure RenameItem where
+  isDir : Bool
+  depth : Nat
+  path  : Nat
+  deriving DecidableEq, Repr
+
+/-- rename.rs's comparator is not `Greater`: directories before files; directories deepest first — directories of
+    EQUAL depth tie; files by path -/
+def renLe (a b : RenameItem) : Bool :=
+  match a.isDir, b.isDir with
+  | true, false => true
+  | false, true => false
+  | true, true => decide (b.depth ≤ a.depth)
+  | false, false => decide (a.path ≤ b.path)
+
+/-- `renames.retain(|r| seen.insert(key(r)))`: the first occurrence of every key stays, in place -/
+def dedupAux {α κ : Type} [DecidableEq κ] (key : α → κ) : List κ → List α → List α
+  | _, [] => []
+  | seen, x :: xs => if key x ∈ seen then dedupAux key seen xs else x :: dedupAux key (key x :: seen) xs
+
+/-- `plan.paths`: per root the walk-ordered candidates, stably sorted; the per-root lists appended in root order;
+    every node kept once -/
+def planRenames (perRootWalk : List (List RenameItem)) : List RenameItem :=
+  dedupAux (fun r => r.path) [] ((perRootWalk.map (sortBy renLe)).flatten)
+
 -- Part B ------------------------------------------------------------------------------------------
 
 /-- the paths these commands can touch; `user n` stands for any path of the user's tree -/
